@@ -198,6 +198,22 @@ PROPS["C16"] = {
     "assumptions": ["equality of addresses is judged on their marshalled text"],
 }
 
+CHN = {
+    "real": ["p/p2pke Channel, Session, Timer (instrumented), flynn/noise, x509"],
+    "stub": ["transport (simulated datagram network owned by the scheduler)", "clock and timers (synctest fake clock)", "goroutine scheduler", "crypto/rand (seeded)"],
+    "tier": "A (trace-deterministic)",
+}
+PROPS["C07"] = {
+    "pkg": "chn", "env": {"SIM_PROP": "C07"}, "legs": ["heal", "heal", "restart", "steady"],
+    "runs": {"quick": 1600, "thorough": 150000}, "budget": {"quick": 240, "thorough": 2400},
+    "rule": "one run = two real Channels with per-run timers (handshake backoff 50-250 ms, keep-alive 1-3 s, rekey 1-8 s, reject 2-24 s) over the simulated network; leg heal: 1-2 pending Sends per side with seeded relative timing, an adversarial prefix over the first 1-8 channel messages (drop, duplicate, reorder, delay across timer firings), then prompt in-order loss-free delivery; leg restart: the peer is replaced by a fresh Channel with the same key after 0-5 delivered handshake messages; leg steady: an established channel under two-way traffic every keep-alive/3 for 3-7 rekey periods; "
+            "non-trivial = a Send completed and (heal/restart) a fault fired; distinct = distinct scheduler decision traces",
+    "components": CHN,
+    "level_text": "seeded exploration of prefix schedules, timer interleavings and restart points with a bounded-liveness oracle evaluated at quiescent points only after faults have stopped: every pending Send returns nil within 8 handshake-backoff intervals of the transport becoming reliable; messages sent on the reliable transport arrive; under steady traffic no Send fails and the number of InitHellos is at most what the rekey period explains",
+    "level_note": "the bound (8 intervals) is a parameter of the check stated in DESIGN.md §5.1, not derived from the code; no oracle demands progress while faults are still being injected",
+    "assumptions": ["'reliable' = every datagram is delivered in order before simulated time advances"],
+}
+
 NOT_APPLICABLE = {
     "C17": "pure functions of their input (key/peer-id marshal, parse, equality, fingerprint): no schedule, clock, fault or second party for a simulator to vary; see DESIGN.md §7",
 }
